@@ -48,6 +48,7 @@ func c01(c *core.Check) {
 	c01StridedLoops(c)
 	c01GridWidth(c)
 	c01FetchRecursion(c)
+	c01LoaderCycles(c)
 	c01OrderedSlices(c)
 
 	p := c.Prog
